@@ -682,7 +682,7 @@ class ObjTranslator:
         self.result_locals = result_locals      # names returned as an `obj "locals"` when the cut is reached
         self.doc = doc
         self.declared: set[str] = set()
-        self.handler_vars: set[str] = set()
+        self.handler_vars: dict[str, str] = {}      # `except … as e`: Python name -> the Lean variable holding the `Exc`
         self.tmp = 0
 
     def fail(self, node, why=""):
@@ -755,7 +755,7 @@ class ObjTranslator:
                 return "OVal.unprovided", True
             if e.id in self.declared or e.id in self.handler_vars:
                 if e.id in self.handler_vars:
-                    return f"(Exc.toVal {lname(e.id)})", True      # the caught exception as an object
+                    return f"(Exc.toVal {self.handler_vars[e.id]})", True      # the caught exception as an object
                 return lname(e.id), True
             if e.id in OBJ_CLASS_NAMES:
                 # a builtin class handed on as a value (`type=dict` in an error): known by its name
@@ -860,6 +860,12 @@ class ObjTranslator:
                 self.fail(e, "call of a sibling with effects inside an expression")
             args = sb.positional(self, e)
             return f"{sb.lean_name} W {self.recv_l} {' '.join(self.atom(x) for x in args)}".rstrip(), False
+        if ast.unparse(f) in self.module_calls and all(k.arg for k in e.keywords) \
+                and not any(isinstance(x, ast.Starred) for x in e.args):
+            # a function / class of another module, the world's by name; keyword arguments travel as (name, value) pairs
+            kws = [f"(OVal.seq .tuple [(OVal.str {json.dumps(k.arg)}), {self.atom(k.value)}])" for k in e.keywords]
+            items = [self.atom(x) for x in e.args] + kws
+            return f"W.ext {json.dumps(self.module_calls[ast.unparse(f)])} [{', '.join(items)}]", False
         if isinstance(f, ast.Attribute) and e.keywords and all(k.arg for k in e.keywords) \
                 and not any(isinstance(x, ast.Starred) for x in e.args) and not self.is_self(f.value) \
                 and not self.is_state(f.value) and f.attr not in ("append", "extend", "clear", "sort", "pop", "update"):
@@ -881,6 +887,8 @@ class ObjTranslator:
                 return f"toList {self.atom(a[0])}", False
             if n == "dict" and len(a) == 1:
                 return f"dictCopy {self.atom(a[0])}", False
+            if n == "type" and len(a) == 1 and "type" not in self.declared:
+                return f"W.ext \"type\" [{self.atom(a[0])}]", False
             if n == "timedelta" and len(a) == 1:
                 return f"timedeltaDays {self.atom(a[0])}", False
             if n == "getattr" and len(a) == 2:
@@ -1044,6 +1052,102 @@ class ObjTranslator:
             return f"(← getattr {self.recv_l} {json.dumps(attr)})", (lambda code, ind: self.set_self_attr(attr, f"(← {code})", ind))
         self.fail(v, "in-place update of something that is neither a local nor an attribute of self")
 
+    def effect_call(self, st):
+        """a simple statement that calls a method of the threaded object: ("sib", Sibling, call, target) for a translated
+        one (`context.handle_error(e)`), ("method", name, call, target) for a foreign one (`context.transformer(v, t)`)"""
+        if isinstance(st, ast.Expr):
+            c, target = st.value, None
+        elif isinstance(st, ast.Assign) and len(st.targets) == 1 and isinstance(st.targets[0], ast.Name):
+            c, target = st.value, st.targets[0].id
+        else:
+            return None
+        if not (isinstance(c, ast.Call) and isinstance(c.func, ast.Attribute) and self.is_state(c.func.value)):
+            return None
+        if ast.unparse(c.func) in self.ignored_calls:
+            return None
+        m = c.func.attr
+        if m in self.state_siblings:
+            return ("sib", self.state_siblings[m], c, target)
+        if c.keywords or any(isinstance(x, ast.Starred) for x in c.args):
+            return None
+        return ("method", m, c, target)
+
+    def try_effects(self, s, ind: str) -> list[str]:
+        """`try:` whose body acts on the threaded object.  A raise inside a translated method does not go through Lean's
+        `try` (the object it hands back would be lost): every statement of the body is run while no exception is pending,
+        what is raised is kept as a value, and the handler / `else` part is chosen afterwards."""
+        if s.finalbody or len(s.handlers) != 1:
+            self.fail(s, "try form")
+        h = s.handlers[0]
+        if h.type is None:
+            self.fail(s, "bare except")
+        classes = [self.cls_name(x) for x in h.type.elts] if isinstance(h.type, ast.Tuple) else [self.cls_name(h.type)]
+        for st in s.body:
+            if not isinstance(st, (ast.Expr, ast.Assign, ast.Return, ast.Pass)):
+                self.fail(st, "compound statement in a try that acts on the threaded object")
+        L = s.lineno
+        pend = f"pending_{L}"
+        out = self.predeclare([s.body, h.body, s.orelse], ind)
+        out.append(f"{ind}let mut {pend} : Option (OVal V) := none")
+        for st in s.body:
+            eff = self.effect_call(st)
+            out.append(f"{ind}if {pend}.isNone then")
+            i2 = ind + "  "
+            if eff is None:
+                out.append(f"{i2}try")
+                out += self.stmt(st, i2 + "  ")
+                out.append(f"{i2}catch x_{st.lineno} =>")
+                out.append(f"{i2}  {pend} := some (Exc.toVal x_{st.lineno})")
+            elif eff[0] == "sib":
+                _, sb, c, target = eff
+                if sb.kind != "mut":
+                    self.fail(st, "state method that is not translated with effects")
+                args = " ".join(self.atom(x) for x in sb.positional(self, c))
+                r = f"r_{st.lineno}"
+                out.append(f"{i2}let {r} ← {sb.lean_name} W {self.state_l} {args}".rstrip())
+                out.append(f"{i2}{self.state_l} := {r}.1")
+                out.append(f"{i2}match {r}.2 with")
+                out.append(f"{i2}| Outcome.raise x => {pend} := some x")
+                if target:
+                    self.declared.add(target)
+                    out.append(f"{i2}| Outcome.ret x => {lname(target)} := x")
+                else:
+                    out.append(f"{i2}| Outcome.ret _ => pure ()")
+            else:
+                _, m, c, target = eff
+                r = f"r_{st.lineno}"
+                out.append(f"{i2}let {r} ← W.method {json.dumps(m)} {self.state_l} {self.args_list(c.args)}")
+                out.append(f"{i2}{self.state_l} := {r}.1")
+                out.append(f"{i2}match {r}.2 with")
+                out.append(f"{i2}| Outcome.raise x => {pend} := some x")
+                if target:
+                    out.append(f"{i2}| Outcome.ret x => {lname(target)} := x")
+                else:
+                    out.append(f"{i2}| Outcome.ret _ => pure ()")
+        ev = f"caught_{L}"
+        out.append(f"{ind}if let some {ev} := {pend} then")
+        i2 = ind + "  "
+        catch_all = "Exception" in classes
+        if not catch_all:
+            out.append(f"{i2}if (← isinstance {ev} [{', '.join(json.dumps(c) for c in classes)}]) then")
+            i3 = i2 + "  "
+        else:
+            i3 = i2
+        was_declared = h.name in self.declared if h.name else False
+        if h.name:
+            out.append(f"{i3}{lname(h.name)} := {ev}" if was_declared else f"{i3}let mut {lname(h.name)} := {ev}")
+            self.declared.add(h.name)
+        out += self.stmts(h.body, i3) or [f"{i3}pure ()"]
+        if h.name and not was_declared:
+            self.declared.discard(h.name)
+        if not catch_all:
+            out.append(f"{i2}else")
+            out.append(f"{i2}  throw (Exc.raised {ev})")
+        if s.orelse:
+            out.append(f"{ind}else")
+            out += self.stmts(s.orelse, ind + "  ")
+        return out
+
     def mut_sibling_call(self, e):
         """`self.sib(…, context, …)` where `sib` is translated with effects on the same threaded parameter"""
         if isinstance(e, ast.Call) and isinstance(e.func, ast.Attribute) and self.is_self(e.func.value) \
@@ -1100,9 +1204,9 @@ class ObjTranslator:
             # `raise e.__class__(msg) from e` inside `except … as e`: the same class again (messages are not modelled)
             if isinstance(exc, ast.Call) and isinstance(exc.func, ast.Attribute) and exc.func.attr == "__class__" \
                     and isinstance(exc.func.value, ast.Name) and exc.func.value.id in self.handler_vars:
-                return [f"{ind}throw {lname(exc.func.value.id)}"]
+                return [f"{ind}throw {self.handler_vars[exc.func.value.id]}"]
             if isinstance(exc, ast.Name) and exc.id in self.handler_vars:
-                return [f"{ind}throw {lname(exc.id)}"]
+                return [f"{ind}throw {self.handler_vars[exc.id]}"]
             if isinstance(exc, ast.Name) and exc.id in self.declared:
                 code = lname(exc.id)       # `raise e` for an exception object held in a parameter / local
             else:
@@ -1179,6 +1283,8 @@ class ObjTranslator:
             return out
         if isinstance(s, ast.Continue):
             return [f"{ind}continue"]
+        if isinstance(s, ast.Break):
+            return [f"{ind}break"]
         if isinstance(s, ast.Pass):
             return [f"{ind}pure ()"]
         if isinstance(s, ast.With) and len(s.items) == 1 and isinstance(s.items[0].context_expr, ast.Call) \
@@ -1192,7 +1298,9 @@ class ObjTranslator:
             call = s.items[0].context_expr
             args = self.state_siblings["enter"].positional(self, call)
             v = s.items[0].optional_vars.id
-            out = [self.assign(v, (f"W.ext \"enter\" {self.args_list([call.func.value] + args)}", False), ind)]
+            # always a new (shadowing) variable: the name of an earlier `with` may be out of scope here
+            self.declared.add(v)
+            out = [f"{ind}let mut {lname(v)} ← W.ext \"enter\" {self.args_list([call.func.value] + args)}"]
             return out + self.stmts(s.body, ind)
         if isinstance(s, ast.With):
             # `with self._lock:` — the lock is not modelled (sequential semantics): the body runs as it is
@@ -1203,6 +1311,9 @@ class ObjTranslator:
                 if not (isinstance(ce, ast.Attribute) and self.is_self(ce.value) and "lock" in ce.attr):
                     self.fail(s, "with on something that is not a lock of self")
             return [f"{ind}-- with {ast.unparse(s.items[0].context_expr)}: (lock not modelled)"] + self.stmts(s.body, ind)
+        if isinstance(s, ast.Try) and self.kind == "mut" and self.state != self.recv \
+                and any(self.effect_call(st) is not None for st in s.body):
+            return self.try_effects(s, ind)
         if isinstance(s, ast.Try):
             if s.finalbody or len(s.handlers) != 1:
                 self.fail(s, "try form")
@@ -1212,6 +1323,8 @@ class ObjTranslator:
             classes = self.cls_list(h.type)
             pre = self.predeclare([s.body, h.body, s.orelse], ind)
             ev = lname(h.name) if h.name else f"exc_{s.lineno}"
+            if h.name and h.name in self.declared:
+                ev = f"caught_{s.lineno}"      # the name is also an ordinary (mutable) local of this function
             okv = f"noexc_{s.lineno}"
             if s.orelse:
                 pre.append(f"{ind}let mut {okv} := true")
@@ -1221,11 +1334,15 @@ class ObjTranslator:
             out.append(f"{ind}  if Exc.isA {ev} {classes} then")
             if s.orelse:
                 out.append(f"{ind}    {okv} := false")
+            shadowed = h.name in self.declared if h.name else False
             if h.name:
-                self.handler_vars.add(h.name)
+                self.handler_vars[h.name] = ev
+                self.declared.discard(h.name)
             out += self.stmts(h.body, ind + "    ") or [f"{ind}    pure ()"]
             if h.name:
-                self.handler_vars.discard(h.name)
+                self.handler_vars.pop(h.name, None)
+                if shadowed:
+                    self.declared.add(h.name)
             out.append(f"{ind}  else")
             out.append(f"{ind}    throw {ev}")
             if s.orelse:
@@ -1296,8 +1413,10 @@ class ObjTranslator:
 
     def translate(self) -> str:
         a = self.fn.args
-        if a.kwarg or a.posonlyargs:
+        if a.posonlyargs:
             self.fail(self.fn, "signature")
+        if a.kwarg and any(isinstance(n, ast.Name) and n.id == a.kwarg.arg for st in self.fn.body for n in ast.walk(st)):
+            self.fail(self.fn, "**kwargs that is used")
         names = [x.arg for x in a.args if not (self.has_self and x.arg == self.recv)]
         if a.vararg:
             names.append(a.vararg.arg)       # `*classes`: the tuple of the positional arguments
@@ -1774,6 +1893,11 @@ def gen_parse(repo: Path, notes: list, gate_ok: bool) -> str:
                      funcs=[dict(py="_validate_contains", lean="validate_contains", kind="pure", arity=1),
                             dict(py="_read_items", lean="read_items", arity=4, **common),
                             dict(py="_parse_contains", lean="parse_contains", arity=3, **common)],
+                     gate_ok=gate_ok)
+    body += _group_body(part)
+    part = gen_group(repo, notes, src_file="utype/parser/rule.py", cls_name="LogicalType", ns="Parse", title="",
+                     funcs=[dict(py="logical_parse", arity=3, module_calls={"utype.Options": "Options"}, **common)],
+                     externals={"RuntimeContext"},
                      gate_ok=gate_ok)
     body += _group_body(part)
     return "\n".join(out + body + ["end Utv.Gen.Parse", ""])
